@@ -4,6 +4,7 @@ import (
 	"bytes"
 	"fmt"
 	"math/big"
+	"time"
 
 	"go.sia.tech/core/consensus"
 	"go.sia.tech/core/types"
@@ -156,6 +157,26 @@ func (w *World) onWire(kind string, v any, enc []byte) {
 		}
 		if ref.HeaderID(b.Header()) != b.ID() {
 			w.violate("C12", "refwire-block-id", fmt.Sprintf("block %s: ID differs from the hash of the specified header layout", short(b.ID())))
+		}
+		// the timestamp is a 64-bit field of the header: times far from today bind too
+		far := b.Header()
+		far.Timestamp = time.Unix(far.Timestamp.Unix()+int64(w.tape.Range(1, 1<<20))<<32, 0)
+		if w.tape.Chance(1, 4) {
+			far.Timestamp = time.Unix(-int64(w.tape.Range(1, 1<<30)), 0)
+		}
+		if ref.HeaderID(far) != far.ID() || far.ID() == b.ID() {
+			w.violate("C12", "refwire-block-id", fmt.Sprintf("block %s with its timestamp moved to %d: ID %v differs from the hash of the specified header layout (or equals the original block's)", short(b.ID()), far.Timestamp.Unix(), far.ID()))
+		}
+		if w.tape.Chance(1, 8) {
+			// a caller that asked for the ID of a half-built transaction and
+			// recovered from the panic must not disturb the IDs computed afterwards
+			_ = guard(func() {
+				(&types.V2Transaction{FileContractResolutions: []types.V2FileContractResolution{{}}}).ID()
+			})
+			_ = guard(func() {
+				(&types.V2Transaction{SiacoinInputs: []types.V2SiacoinInput{{}}}).FullHash()
+			})
+			w.stats.Inc("probe.wire.recovered-hash-panic")
 		}
 		if b.V2 == nil {
 			var vb ref.W
